@@ -94,24 +94,27 @@ Fixpoint determinism (os : list vobs) (seen : list (hkey * bstr)) : list kind * 
   | _ :: r => determinism r seen
   end.
 
+(* what the model says about ONE observed step (state before it: st) *)
+Definition step_mm (st : fstate N) (o : op N) (ob : cobs) : list kind :=
+  match ob, snd (step N d_enc m_derive d_hkdf d_hmac st o), o with
+  | CoPanic, _, _ => [CKPanic]
+  | CoNone, OutNone, _ | CoConsumed, OutConsumed, _ | CoErr, OutErr, _ => []
+  | CoValues os, OutValues _, OEvent _ ewi vals =>
+      match key_in_force N m_derive st ewi with Some t => check_values t vals os | None => [CKErr] end
+  | _, OutConsumed, _ | CoConsumed, _, _ => [CKConsumed]
+  | _, _, _ => [CKErr]
+  end.
+Definition step_seen (ob : cobs) (seen : list (hkey * bstr)) : list kind * list (hkey * bstr) :=
+  match ob with CoValues os => determinism os seen | _ => ([], seen) end.
+
 Fixpoint run_steps (div : bool) (st : fstate N) (seen : list (hkey * bstr)) (i : N) (steps : list (op N * cobs)) : list (N * kind) :=
   match steps with
   | [] => []
   | (o, ob) :: rest =>
-      let (st', out) := step N d_enc m_derive d_hkdf d_hmac st o in
-      let '(oracle, seen') := match ob with CoValues os => determinism os seen | _ => ([], seen) end in
-      let mm :=
-        if div then [] else
-        match ob, out, o with
-        | CoPanic, _, _ => [CKPanic]
-        | CoNone, OutNone, _ | CoConsumed, OutConsumed, _ | CoErr, OutErr, _ => []
-        | CoValues os, OutValues _, OEvent _ ewi vals =>
-            match key_in_force N m_derive st ewi with Some t => check_values t vals os | None => [CKErr] end
-        | _, OutConsumed, _ | CoConsumed, _, _ => [CKConsumed]
-        | _, _, _ => [CKErr]
-        end in
-      map (pair i) (mm ++ oracle)
-      ++ run_steps (div || match mm with [] => false | _ => true end) st' seen' (N.succ i) rest
+      let st' := fst (step N d_enc m_derive d_hkdf d_hmac st o) in
+      let mm := if div then [] else step_mm st o ob in
+      map (pair i) (mm ++ fst (step_seen ob seen))
+      ++ run_steps (div || match mm with [] => false | _ => true end) st' (snd (step_seen ob seen)) (N.succ i) rest
   end.
 
 Definition conc_ok (t : N * N * N) : bool := match t with (w, s, i) => N.eqb w s && N.eqb s i end.
